@@ -34,8 +34,8 @@ def main():
     if "--round2" in sys.argv:
         src = f"/tmp/seed2-{prop}-out"
         name = f"{prop}-{int(k) + 2}"
-    if any(f"--round{n}" in sys.argv for n in (3, 4, 5, 6, 7, 8, 9)):
-        rnd = 9 if "--round9" in sys.argv else 8 if "--round8" in sys.argv else 7 if "--round7" in sys.argv else 6 if "--round6" in sys.argv else 5 if "--round5" in sys.argv else 4 if "--round4" in sys.argv else 3
+    if any(f"--round{n}" in sys.argv for n in (3, 4, 5, 6, 7, 8, 9, 10)):
+        rnd = 10 if "--round10" in sys.argv else 9 if "--round9" in sys.argv else 8 if "--round8" in sys.argv else 7 if "--round7" in sys.argv else 6 if "--round6" in sys.argv else 5 if "--round5" in sys.argv else 4 if "--round4" in sys.argv else 3
         src = f"/tmp/seed{rnd}-{prop}-out"
         name = f"{prop}-{int(k) + 2 * (rnd - 1)}"
     patch = os.path.join(src, f"patch{k}.diff")
